@@ -181,10 +181,11 @@ func (o *functionOperator) Next(ctx context.Context) ([]model.StepVector, error)
 		if o.funcExpr.Func.Name == "scalar" {
 			return o.nextScalarNaNs(), nil
 		}
-		// The scalar arguments are evaluated for every step, as in the
-		// reference engine, so that an error in them is not lost.
+		// The arguments are evaluated for every step, as in the reference
+		// engine, so that an error in them is not lost. That includes the
+		// rest of the vector argument if it merely delivered an empty batch.
 		for i := range o.nextOps {
-			if i == o.vectorIndex {
+			if i == o.vectorIndex && vectors == nil {
 				continue
 			}
 			for {
